@@ -101,10 +101,11 @@ def _resolve(built, route):
 
 
 def finding_signature(case):
-    """'C13:F4' iff every call of the case that was given a completion function and ended with no
-    completion and no invocation at all is a call whose route resolves to a notify-shaped method
-    (and, through CallWithSerialize, whose payload decodes) - and there is at least one."""
-    reg, built, f4, other = [], [], 0, 0
+    """'C13:F4' iff every call of the case that was given a completion function (a request id, on
+    the Dispatch path) and ended with no completion / response and no invocation at all is a call
+    whose route resolves to a notify-shaped method (in the first collection of the dispatcher that
+    has the route) and whose payload decodes - and there is at least one such call."""
+    reg, built, f4, other = {}, {}, 0, 0
     try:
         for op, ob in zip(case["ops"], case["obs"]):
             if isinstance(op, str):
@@ -112,22 +113,41 @@ def finding_signature(case):
             else:
                 (name, a), = op.items()
             if name == "OBuild":
-                built = list(reg)
+                built[a[0]] = list(reg.get(a[0], []))
             elif name == "OReg":
-                reg.append((a[0], a[1]))
+                reg.setdefault(a[0], []).append((a[1], a[2]))
             elif name in ("OCallSer", "OCall"):
                 tr, esc = ob["BCall"]
                 if name == "OCallSer":
-                    ser, route, _, dec, _, cb, _ = a
+                    k, ser, route, _, dec, _, cb, _ = a
                 else:
-                    route, _, _, cb, _ = a
+                    k, route, _, _, cb, _ = a
                 if not cb or tr or esc:
                     continue
-                m = _resolve(built, _s(route))
+                m = _resolve(built.get(k, []), _s(route))
                 ok = m is not None and len(m["M"][3]) == 2
                 if ok and name == "OCallSer":
                     t = m["M"][3][1]["P"][4]
                     ok = ser != "SNil" and any(p[""][0] == t and p[""][1] != "DBad" for p in dec)
+                if ok:
+                    f4 += 1
+                else:
+                    other += 1
+            elif name == "ODispatch":
+                ks, rid, route, _, dec, rawok, _, _ = a
+                inv, rsps, fell, esc = ob["BDisp"]
+                route = _s(route)
+                if rid == 0 or route == "" or inv or rsps or esc:
+                    continue
+                m = None
+                for k in ks:
+                    m = _resolve(built.get(k, []), route)
+                    if m is not None:
+                        break
+                ok = m is not None and len(m["M"][3]) == 2
+                if ok:
+                    t = m["M"][3][1]["P"][4]
+                    ok = any(p[""][0] == t and p[""][1] != "DBad" for p in dec)
                 if ok:
                     f4 += 1
                 else:
